@@ -556,6 +556,31 @@ func runC09(r *Run, verifDir string) {
 			hasGo = true
 		}
 	})
+	// ... and nothing but that loop executes items: a second entry point (a fast path for one-item requests, a helper
+	// called before the header checks) runs handlers outside the validation and the stop logic
+	elsewhere := token.NoPos
+	where := ""
+	for _, f := range pkgFuncs(p, "kmipserver") {
+		top := f
+		for top.Parent() != nil {
+			top = top.Parent()
+		}
+		if top == hr {
+			continue
+		}
+		allInstrs(f, func(in ssa.Instruction) {
+			if c := callOf(in); c != nil {
+				if id := callID(c); id.is(srvPath, "BatchExecutor", "executeItemWithMiddleware") || (id.is(srvPath, "BatchExecutor", "executeItem") && !idOf(top).is(srvPath, "BatchExecutor", "executeItemWithMiddleware")) {
+					elsewhere, where = in.Pos(), fnKey(f)
+				}
+			}
+		})
+	}
+	if elsewhere.IsValid() {
+		r.Bad("C09.B4", "kmipserver.BatchExecutor.handleRequest/only-entry", elsewhere, "%s executes a batch item outside the loop of handleRequest: that execution is not covered by the version / Undo / batch-count validation nor by the stop logic, and the item may be executed a second time by the loop", where)
+	} else {
+		r.OK("C09.B4", "kmipserver.BatchExecutor.handleRequest/only-entry", exec.Pos(), "the item executor is called from the loop of handleRequest only")
+	}
 	r.Check(nExec == 1 && hdr != nil && !innerLoop && !hasGo && exec.Call.Args[2] != nil, "C09.B4", "kmipserver.BatchExecutor.handleRequest/once", exec.Pos(), "one call of the item executor per loop iteration, no inner loop, no goroutine", fmt.Sprintf("items may be executed more than once or concurrently (call sites=%d, inner loop=%v, go=%v)", nExec, innerLoop, hasGo))
 	if ei != nil {
 		paths, ok := enumeratePaths(ei, 4096)
@@ -1074,6 +1099,34 @@ func runC15(r *Run, verifDir string) {
 				r.Bad("C15.O3", key, in.Pos(), "%s clears the ID placeholder outside the failure path of an item: later items of the request no longer observe the value an earlier item stored", fnKey(fn))
 			}
 		})
+	}
+	// who may set or read: the value is written and consumed by operation handlers (user code reached through the
+	// OperationHandler interface); the server's own code neither sets the placeholder nor copies it out of the request —
+	// a value read here could be kept beyond the request (a cache, a log of outcomes), a value set here comes from
+	// somewhere else than an operation of this request
+	nPlc := 0
+	for _, fn := range pkgFuncs(p, "kmipserver") {
+		allInstrs(fn, func(in ssa.Instruction) {
+			c := callOf(in)
+			if c == nil {
+				return
+			}
+			id := callID(c)
+			if !id.is(srvPath, "", "SetIdPlaceholder") && !id.is(srvPath, "", "IdPlaceholder") {
+				return
+			}
+			if fnKey(fn) == "kmipserver.GetIdOrPlaceholder" {
+				// the public accessor handlers use: the explicit identifier of the payload, else the placeholder — it
+				// returns the value to its caller and keeps nothing
+				r.OK("C15.O3", "kmipserver.GetIdOrPlaceholder/uses-placeholder", in.Pos(), "public accessor for handlers: returns the explicit identifier or the placeholder")
+				return
+			}
+			nPlc++
+			r.Bad("C15.O3", fmt.Sprintf("%s/uses-placeholder#%d", fnKey(fn), nPlc), in.Pos(), "%s calls %s: the server's own code reads or sets the ID placeholder, which belongs to the operation handlers of one request — a value carried in server state (replay cache, shared executor field) crosses from one request or connection to another", fnKey(fn), id.name)
+		})
+	}
+	if nPlc == 0 {
+		r.OK("C15.O3", "kmipserver/uses-placeholder", token.NoPos, "no function of the server package sets or reads the placeholder: only operation handlers do")
 	}
 	c15O5(r)
 	// O4
